@@ -281,6 +281,29 @@ def fragment_tail(sl, anchor_re, name=None):
     return s
 
 
+def fragment_between(sl, start_re, end_re, name=None):
+    """Head/middle fragment: the text from the unique match of start_re up to (not including) the unique match of
+    end_re, both at brace depth 0 of the function body."""
+    header, body = body_of(sl.text)
+    ms, me = list(re.finditer(start_re, body)), list(re.finditer(end_re, body))
+    if len(ms) != 1 or len(me) != 1 or me[0].start() <= ms[0].start():
+        raise Undecided("fragment_between(%s): expected one start and one later end anchor, found %d/%d" % (sl.name, len(ms), len(me)))
+    t = body[ms[0].start():me[0].start()]
+    d = [0]
+    def f(i, c):
+        if c == '{': d[0] += 1
+        elif c == '}': d[0] -= 1
+        return False
+    _scan_code(body[:ms[0].start()], 0, f)
+    d0 = d[0]
+    _scan_code(t, 0, f)
+    if d0 != 0 or d[0] != 0:
+        raise Undecided("fragment_between(%s): anchors are not at the top level of the function body" % sl.name)
+    if re.search(r'\b(return|goto)\b', strip_comments(t)):
+        raise Undecided("fragment_between(%s): the fragment contains return/goto" % sl.name)
+    return Slice(name or sl.name + ":middle", sl.rel, t, sl.line, kind="middle-fragment")
+
+
 def fragment_loop(sl, for_re, name=None):
     """(header_text, body_text) of the unique `for`/`while` statement whose header matches for_re."""
     ms = list(re.finditer(for_re, sl.text))
